@@ -511,7 +511,7 @@ fn exec_built(env: &mut Env, run: &mut Run, c: &Case, mut b: Built, emit: bool, 
     drain_all(env);
     let mut input = b.init_tokens.clone();
     let mut outs = vec![observe(&b.transport, "-".into())];
-    let mut scratch = Run::new("c06", "/tmp/vh-c06-scratch");
+    let mut scratch = Run::new("c06", &crate::scratch("c06-scratch"));
     let run: &mut Run = if emit { run } else { &mut scratch };
     let mut peer_traffic: Option<&'static str> = None;   // the previous event was an indication / media datagram from the selected pair's remote address
     for p in &c.pkts {
@@ -884,7 +884,7 @@ pub fn run(args: &Args) {
     let mut env = Env::new();
     if let Some(case) = &args.replay {
         let c = Case::parse(case).expect("bad case text");
-        let mut run = Run::new("c06", "/tmp/vh-c06-replay");
+        let mut run = Run::new("c06", &crate::scratch("c06-replay"));
         exec(&mut env, &mut run, &c, true);
         for f in &run.fails { println!("ORACLE-FAIL {} {}", f.signature, f.detail); }
         if run.fails.is_empty() { println!("no oracle failure"); }
